@@ -6,7 +6,8 @@ Line: `chk <hex source (ignored here)> <kind> <scrutinee type id> T <n> <def>…
 * kind: `match` | `let` | `iflet`
 * def:  `E <cls> <k> (<variant name> <arity> <type id>…)…` | `S <k> (<field name> <type id>)…` | `P`
 * spat: `W` | `I` | `T <k> p…` | `O <k> (<field name> p)…` | `V <tag> <k> p…` | `R <k> p…`
-Answer: `nonexh=<counterexample or -> useless=<0|1> err=<0|1> panic=<0|1> typed=<0|1>`; variant names are
+Answer: `nonexh=<counterexample or -> useless=<0|1> err=<0|1> panic=<0|1> typed=<0|1> inh=<0|1>`
+(`inh`: a rank certificate for `Inhabited'` of the type table was found and checked by `rankCheck`); variant names are
 printed as `#<id>` (the Python side substitutes the names). `fuel` is printed instead if the fuel ran out. -/
 namespace Driver.C07
 open SamVerif.Useful Driver
@@ -86,6 +87,28 @@ def cxOf (defs : List Def) : Cx := fun cls =>
 
 def fuel : Nat := 10000000
 
+/-- least-fixpoint search for a rank assignment (untrusted; its result is checked by `rankCheck`) -/
+def rankStep (defs : List Def) (ranks : List (Option Nat)) : List (Option Nat) :=
+  let get (t : Nat) : Option Nat := (ranks.getD t none)
+  let allRanked (tys : List Nat) : Option Nat :=
+    tys.foldl (fun acc ty => match acc, get ty with
+      | some m, some r => some (max m (r + 1))
+      | _, _ => none) (some 0)
+  (List.range defs.length).map fun t =>
+    match get t with
+    | some r => some r
+    | none =>
+      match defs.getD t .prim with
+      | .prim => some 0
+      | .struct fs => allRanked (fs.map (·.2))
+      | .enum _ vs => (vs.filterMap fun v => (findVariant vs v.1).bind allRanked).head?
+
+def computeRanks (defs : List Def) : List Nat :=
+  let init : List (Option Nat) := List.replicate defs.length none
+  let final := (List.range (defs.length + 1)).foldl (fun r _ => rankStep defs r) init
+  final.map (·.getD 0)
+
+
 def b (x : Bool) : String := if x then "1" else "0"
 
 def answer (kind : String) (ty : Nat) (defs : List Def) (pats : List SPat) : String :=
@@ -98,16 +121,17 @@ def answer (kind : String) (ty : Nat) (defs : List Def) (pats : List SPat) : Str
   let err := ns.any (·.err)
   let pan := ns.any (·.panic)
   let typed := aps.all (fun p => patTy sig p ty)
+  let inh := rankCheck defs (computeRanks defs)
   if kind == "iflet" then
     -- main_checker.rs:940-946: useless (irrefutable) iff a wildcard is not useful after the pattern
     match isAdditionalPatternUsefulF cx fuel aps .wild with
     | none => "fuel"
-    | some u => s!"nonexh=- useless={b (!u)} err={b err} panic={b pan} typed={b typed}"
+    | some u => s!"nonexh=- useless={b (!u)} err={b err} panic={b pan} typed={b typed} inh={b inh}"
   else
     match incompleteCounterexampleF cx fuel aps with
     | none => "fuel"
-    | some none => s!"nonexh=- useless=0 err={b err} panic={b pan} typed={b typed}"
-    | some (some d) => s!"nonexh={(render d).replace " " "~"} useless=0 err={b err} panic={b pan} typed={b typed}"
+    | some none => s!"nonexh=- useless=0 err={b err} panic={b pan} typed={b typed} inh={b inh}"
+    | some (some d) => s!"nonexh={(render d).replace " " "~"} useless=0 err={b err} panic={b pan} typed={b typed} inh={b inh}"
 
 def step (_ : Unit) (line : String) : Unit × String :=
   match words line with
